@@ -415,6 +415,23 @@ type c20Kill struct {
 	Trials   int      `json:"trials"`
 	Variants []c20Cfg `json:"variants"`
 	MaxMs    float64  `json:"max_ms"`
+	Writers  int      `json:"writers"` // 2: two processes store into the same directory concurrently
+	Count    int      `json:"count"`   // two writers: every 4th trial lets both run this many stores to the end instead of killing them
+}
+
+type c20Kill2Trial struct {
+	Last      [2]int   `json:"last"`   // last store each writer reported
+	Errs      [2]int   `json:"errs"`   // stores that returned an error
+	ErrCls    []string `json:"errcls"` // their classes
+	Killed    bool     `json:"killed"`
+	File      c20Dig   `json:"file"`
+	ParseOK   bool     `json:"parse_ok"`
+	Match     string   `json:"match"`  // writer0 | writer1 | prev | absent | none
+	MatchI    int      `json:"match_i"`
+	Temps     []c20Ent `json:"temps"`
+	TempOK    []bool   `json:"temp_ok"` // each leftover temporary is a prefix of a configuration one of the writers was storing
+	DelayMs   float64  `json:"delay_ms"`
+	GenInFile int64    `json:"gen_in_file"`
 }
 
 type c20Case struct {
@@ -456,6 +473,7 @@ type c20Out struct {
 	Exit    string         `json:"exit"`
 	Stderr  string         `json:"stderr"`
 	Kills   []c20KillTrial `json:"kills,omitempty"`
+	Kills2  []c20Kill2Trial `json:"kills2,omitempty"`
 	Interv  string         `json:"interv,omitempty"`
 	PreRes  []c20Res       `json:"pre_res,omitempty"`
 	Skipped string         `json:"skipped,omitempty"` // the privilege whose absence made the harness skip this case
@@ -562,6 +580,11 @@ func c20RunCase(t *testing.T, c *c20Case, base string) c20Out {
 		d := filepath.Join(base, fmt.Sprintf("d%d", i))
 		_ = os.MkdirAll(d, 0o755)
 		out.Dirs = append(out.Dirs, d)
+	}
+	if c.Kill != nil && c.Kill.Writers == 2 {
+		c20RunKill2(c, &out, base)
+		out.Elapsed = time.Since(t0).Seconds()
+		return out
 	}
 	if c.Kill != nil {
 		c20RunKill(c, &out, base)
@@ -837,6 +860,155 @@ func c20RunKill(c *c20Case, out *c20Out, base string) {
 		if rs[0].Err == "ok" && rs[0].Mem != nil && rs[0].Mem.Sha == pk.File.Sha && rs[0].Mem.Len == pk.File.Len {
 			pk.ReloadGen = int64(pk.MatchGen)
 		}
+	}
+	out.Exit = "ok"
+}
+
+// two writers: two children store concurrently into one directory (distinct generations tell their
+// configurations apart) and are SIGKILLed at random instants, or run a fixed number of stores to the end
+func c20RunKill2(c *c20Case, out *c20Out, base string) {
+	dir := out.Dirs[0]
+	rng := mrand.New(mrand.NewSource(c.Seed))
+	vs := make([]*pb.ClientConf, len(c.Kill.Variants))
+	for i, s := range c.Kill.Variants {
+		vs[i] = c20Build(s)
+	}
+	cand := func(gen0 uint32, i int) []byte {
+		if i <= 0 {
+			return nil
+		}
+		v := vs[c20LoopIdx(i, len(vs))]
+		g := gen0 + uint32(i)
+		v.Generation = &g
+		b, _ := proto.Marshal(v)
+		return b
+	}
+	var prevFile []byte
+	prevHas := false
+	for trial := 0; trial < c.Kill.Trials; trial++ {
+		toEnd := c.Kill.Count > 0 && trial%4 == 3
+		kt := c20Kill2Trial{Killed: !toEnd}
+		var gen0 [2]uint32
+		var cmds [2]*exec.Cmd
+		var fins [2]chan struct{}
+		var readys [2]chan struct{}
+		var mu sync.Mutex
+		for w := 0; w < 2; w++ {
+			gen0[w] = uint32(1000000*(trial+1) + 400000*w)
+			op := c20Op{Op: "loop", Variants: c.Kill.Variants, Gen0: gen0[w]}
+			if toEnd {
+				op.Count = c.Kill.Count
+			}
+			script := []c20Op{{Op: "setdir", Dir: dir}, op}
+			specPath := filepath.Join(base, fmt.Sprintf("spec%d.json", w))
+			sb, _ := json.Marshal(script)
+			_ = os.WriteFile(specPath, sb, 0o644)
+			cmd := c20ChildCmd(specPath, &c20Case{}, "")
+			pr, pw, _ := os.Pipe()
+			cmd.Stdout = pw
+			if err := cmd.Start(); err != nil {
+				out.Exit = "start: " + err.Error()
+				return
+			}
+			pw.Close()
+			cmds[w] = cmd
+			fins[w] = make(chan struct{})
+			readys[w] = make(chan struct{})
+			go func(w int, pr *os.File) {
+				sc := bufio.NewScanner(pr)
+				sc.Buffer(make([]byte, 1<<20), 1<<26)
+				for sc.Scan() {
+					ln := sc.Text()
+					if strings.HasPrefix(ln, "C20K ready") {
+						close(readys[w])
+					} else if strings.HasPrefix(ln, "C20K ") {
+						var i int
+						var cls string
+						fmt.Sscanf(ln[5:], "%d %s", &i, &cls)
+						mu.Lock()
+						kt.Last[w] = i
+						if cls != "ok" {
+							kt.Errs[w]++
+							if len(kt.ErrCls) < 6 {
+								kt.ErrCls = append(kt.ErrCls, cls)
+							}
+						}
+						mu.Unlock()
+					}
+				}
+				pr.Close()
+				close(fins[w])
+			}(w, pr)
+		}
+		for w := 0; w < 2; w++ {
+			select {
+			case <-readys[w]:
+			case <-time.After(60 * time.Second):
+			}
+		}
+		if toEnd {
+			for w := 0; w < 2; w++ {
+				_ = cmds[w].Wait()
+				<-fins[w]
+			}
+		} else {
+			kt.DelayMs = rng.Float64() * c.Kill.MaxMs
+			time.Sleep(time.Duration(kt.DelayMs * float64(time.Millisecond)))
+			first := rng.Intn(2)
+			_ = cmds[first].Process.Signal(syscall.SIGKILL)
+			time.Sleep(time.Duration(rng.Float64() * 2 * float64(time.Millisecond)))
+			_ = cmds[1-first].Process.Signal(syscall.SIGKILL)
+			for w := 0; w < 2; w++ {
+				_ = cmds[w].Wait()
+				<-fins[w]
+			}
+		}
+		file, err := os.ReadFile(filepath.Join(dir, "ClientConf"))
+		kt.File = c20Digest(file, err == nil)
+		kt.GenInFile = -1
+		switch {
+		case err != nil && !prevHas:
+			kt.Match = "prev"
+		case err != nil:
+			kt.Match = "absent"
+		default:
+			kt.Match = "none"
+			pc := &pb.ClientConf{}
+			kt.ParseOK = proto.Unmarshal(file, pc) == nil
+			if prevHas && bytes.Equal(file, prevFile) {
+				kt.Match = "prev"
+			} else if kt.ParseOK {
+				g := pc.GetGeneration()
+				kt.GenInFile = int64(g)
+				for w := 0; w < 2; w++ {
+					i := int(g) - int(gen0[w])
+					// a store that completed may not have been reported yet: up to last+1 (+2: a store begun after an unreported one)
+					if i >= 1 && i <= kt.Last[w]+2 && bytes.Equal(file, cand(gen0[w], i)) {
+						kt.Match, kt.MatchI = fmt.Sprintf("writer%d", w), i
+					}
+				}
+			}
+		}
+		ents, _ := c20List(dir)
+		for _, e := range ents {
+			if e.Name == "ClientConf" {
+				continue
+			}
+			kt.Temps = append(kt.Temps, e)
+			b, _ := os.ReadFile(filepath.Join(dir, e.Name))
+			ok := false
+			for w := 0; w < 2; w++ {
+				for di := 1; di <= 2; di++ {
+					if bytes.HasPrefix(cand(gen0[w], kt.Last[w]+di), b) {
+						ok = true
+					}
+				}
+			}
+			kt.TempOK = append(kt.TempOK, ok)
+			_ = os.Remove(filepath.Join(dir, e.Name))
+		}
+		prevFile, prevHas = file, err == nil
+		out.Kills2 = append(out.Kills2, kt)
 	}
 	out.Exit = "ok"
 }
